@@ -1,6 +1,6 @@
 (* C13 - Built-in solvers pick valid actions by their rule and leave the env untouched.
    Statements only; proofs in theories/SolversProofs.v and theories/EnvProofs.v. *)
-From ICG Require Import Prelude Bits Table Bounds GameOps SAKnowledge Shapley Exploit Norms Env EnvProofs SolversProofs.
+From ICG Require Import Prelude Bits Table Bounds GameOps SAKnowledge Shapley Exploit Norms Env EnvProofs SolversProofs Search Greedy GreedyProofs SASound SAMSpec SearchMono.
 From ICG Require Import RegistryTypes gen.Registry gen.RegistryLinkProps.
 
 (* valid actions = positions where the mask is true *)
@@ -45,6 +45,63 @@ Theorem C13_step_unstep_restores : forall e a e1 e2 ch k, ev_wf e -> ev_inv e ch
   ev_step e a = Some e1 -> ev_unstep e1 a = Some e2 -> teqn (e_n e) (e_tab e2) (e_tab e) /\ e_steps e2 = e_steps e.
 Proof. exact ev_step_unstep. Qed.
 Print Assumptions C13_step_unstep_restores.
+
+(* ---------- the expected-greedy search (run/greedy.py get_greedy_rewards) ----------
+   [value s] = column of gaps over the sampled games after revealing the coalitions of s; eg_run returns the chosen
+   sequence and the rows of the gap matrix.  The search never repeats a coalition, has exactly max_steps choices,
+   row k is the gap column of its first k choices, and each choice minimises the mean gap among ALL one-coalition
+   extensions by a not yet chosen coalition. *)
+Theorem C13_expected_greedy :
+  forall value max_steps possible seq rows,
+    NoDup possible -> eg_run value max_steps possible = Some (seq, rows) ->
+    length seq = max_steps /\ NoDup seq /\ (forall a, In a seq -> In a possible)
+    /\ rows = map (fun k => value (firstn k seq)) (List.seq 0 (S max_steps))
+    /\ (forall j a, nth_error seq j = Some a ->
+          forall b, In b possible -> ~ In b (firstn j seq) ->
+            sr_mean (value (firstn j seq ++ [a])) <= sr_mean (value (firstn j seq ++ [b]))).
+Proof. exact eg_run_spec. Qed.
+Print Assumptions C13_expected_greedy.
+
+(* its gap curve is non-increasing whenever one more revealed coalition never increases the mean gap ... *)
+Theorem C13_expected_greedy_curve_nonincreasing :
+  forall value max_steps possible seq rows,
+    (forall s a, sr_mean (value (s ++ [a])) <= sr_mean (value s)) ->
+    NoDup possible -> eg_run value max_steps possible = Some (seq, rows) ->
+    forall k, (k < max_steps)%nat -> eg_curve value seq (S k) <= eg_curve value seq k.
+Proof. exact eg_curve_nonincreasing. Qed.
+Print Assumptions C13_expected_greedy_curve_nonincreasing.
+
+(* ... which is the case for games of the class matching the computer (per sampled game; means follow by sr_mean_le) *)
+Theorem C13_value_monotone_sa :
+  forall (c : computer) g n t v known seq a x x',
+    (c = CRef \/ c = CCached) -> SA n (ev_val v) -> ev_val v 0%N == 0 ->
+    MinK n (fun s => ev_mem s (seq ++ known)) ->
+    sr_value c g n t v known seq = Some x -> sr_value c g n t v known (seq ++ [a]) = Some x' -> x' <= x.
+Proof. exact sr_value_monotone_sa. Qed.
+Print Assumptions C13_value_monotone_sa.
+Theorem C13_value_monotone_sam :
+  forall r g n t v known seq a x x',
+    SA n (ev_val v) -> Mono n (ev_val v) -> ev_val v 0%N == 0 ->
+    MinK n (fun s => ev_mem s (seq ++ known)) ->
+    sr_value (CSam r) g n t v known seq = Some x -> sr_value (CSam r) g n t v known (seq ++ [a]) = Some x' -> x' <= x.
+Proof. exact sr_value_monotone_sam. Qed.
+Print Assumptions C13_value_monotone_sam.
+
+(* never below any lower bound of the mean gaps of all sets of the same size (in particular the exhaustive optimum, C11),
+   and optimal for one reveal (for zero reveals row 0 is the gap at the starting knowledge by C13_expected_greedy) *)
+Theorem C13_expected_greedy_vs_optimum :
+  forall value max_steps possible seq rows k bound,
+    NoDup possible -> eg_run value max_steps possible = Some (seq, rows) -> (k <= max_steps)%nat ->
+    (forall s, NoDup s -> (forall a, In a s -> In a possible) -> length s = k -> bound <= sr_mean (value s)) ->
+    bound <= eg_curve value seq k.
+Proof. exact eg_never_below_optimum. Qed.
+Print Assumptions C13_expected_greedy_vs_optimum.
+Theorem C13_expected_greedy_first_step_optimal :
+  forall value max_steps possible seq rows a,
+    NoDup possible -> eg_run value max_steps possible = Some (seq, rows) -> nth_error seq 0 = Some a ->
+    forall b, In b possible -> eg_curve value seq 1 <= sr_mean (value [b]).
+Proof. exact eg_first_step_optimal. Qed.
+Print Assumptions C13_expected_greedy_first_step_optimal.
 
 (* every name of the SOLVERS registry of /repo (regenerated on every run) is one of the modelled solvers *)
 Theorem C13_registry_solvers_modelled :
